@@ -390,7 +390,60 @@ Proof.
     now destruct (Hx eq_refl).
   - intros ->. rewrite app_nil_r. now apply roundtrip.
 Qed.
+(* ---------- the fuel of the model is never exhausted ---------- *)
+
+Lemma read_size_consumes terr k acc s buf r :
+  read_size terr (S k) true acc s = RSBuf buf r -> (length r < length s)%nat.
+Proof.
+  cbn [read_size]. destruct s as [|b r0].
+  - destruct terr; discriminate.
+  - destruct (b2n b <? 128).
+    + intros H; inversion H; subst. cbn; lia.
+    + intros H. pose proof (read_size_inv k terr false (acc ++ [b]) r0) as Hi. rewrite H in Hi. cbn; lia.
+Qed.
+
+Lemma unmarshal_not_fuel b : unmarshal body_ok b <> DOutOfFuel.
+Proof. unfold unmarshal. destruct (body_ok b); discriminate. Qed.
+
+Lemma unmarshal_from_progress terr o max s :
+  fst (unmarshal_from body_ok terr o max s) <> DOutOfFuel /\
+  (forall b, fst (unmarshal_from body_ok terr o max s) = DOk b ->
+             (length (snd (unmarshal_from body_ok terr o max s)) < length s)%nat).
+Proof.
+  unfold unmarshal_from, size_arr_len.
+  pose proof (read_size_inv 10 terr true [] s) as Hinv.
+  destruct (read_size terr 10 true [] s) as [buf r|e r] eqn:Er.
+  - apply read_size_consumes in Er.
+    destruct (dec_varint buf) as [[size rest]|[]]; cbn [fst snd]; try (split; [discriminate | intros; discriminate]).
+    destruct (effective_max max <? size); [split; [discriminate | intros; discriminate]|].
+    destruct (is_bufio o && peek_ok o size && (size <=? max_int) && (size <=? N.of_nat (length r))).
+    + rewrite take_upto_spec. cbn [fst snd]. split; [apply unmarshal_not_fuel|].
+      intros _ _. rewrite skipn_length. lia.
+    + destruct (max_alloc <? size); [split; [discriminate | intros; discriminate]|].
+      rewrite read_full_spec by lia.
+      destruct (size <=? N.of_nat (length r)); cbn [fst snd].
+      * split; [apply unmarshal_not_fuel|]. intros _ _. rewrite skipn_length. lia.
+      * split; [destruct terr; discriminate | destruct terr; intros; discriminate].
+  - cbn [fst snd]. destruct Hinv as (_ & [[-> _]|(-> & _)]); split; try discriminate; intros; discriminate.
+Qed.
+
+Lemma read_all_no_fuel terr orc max : forall fuel i s,
+  (length s < fuel)%nat -> ~ In DOutOfFuel (read_all body_ok terr fuel orc i max s).
+Proof.
+  induction fuel as [|f IH]; intros i s Hf; [lia|].
+  cbn [read_all].
+  destruct (unmarshal_from_progress terr (orc i) max s) as [Hnf Hprog].
+  destruct (unmarshal_from body_ok terr (orc i) max s) as [res r]. cbn [fst snd] in *.
+  destruct res; try (intros [H|[]]; congruence).
+  intros [H|H]; [discriminate|].
+  specialize (Hprog body eq_refl). apply (IH (S i) r); [lia | exact H].
+Qed.
+
+Theorem read_stream_no_fuel terr orc max s :
+  ~ In DOutOfFuel (read_stream body_ok terr orc max s).
+Proof. unfold read_stream. apply read_all_no_fuel. lia. Qed.
 End DelimProofs.
+
 
 (* ---------- the constants of the model are those of the source (Tier T: Gen/DelimConsts.v) ---------- *)
 Lemma delim_consts_ok :
